@@ -16,3 +16,14 @@ func verifAfterWalkEntry(fullPath string, d gofs.DirEntry) {
 		f(fullPath, d.IsDir())
 	}
 }
+
+// VerifAfterWriterChmod, when set, is called by the receiver's lazy content
+// writer after it has made a read-only destination file writable and before it
+// opens the file again (same purpose: steering schedules; "verif" tag only).
+var VerifAfterWriterChmod func(path string)
+
+func verifAfterWriterChmod(path string) {
+	if f := VerifAfterWriterChmod; f != nil {
+		f(path)
+	}
+}
